@@ -18,6 +18,7 @@ import importlib
 import itertools
 import re
 
+from .. import worker
 from .. import core, obs, seeds
 from ..ref import calref
 
@@ -435,10 +436,11 @@ def run_shard(shard):
                         continue
                     acc.c["states"] += 1
                     pc = data(loc)["plural"](kk)
+                    with worker.guarded(acc, "format_diff", {"kind": "uc", "loc": loc, "unit": unit, "k": kk}):
+                        check_unit_count(acc, pendulum, loc, unit, kk)
                     if pc not in seen_plural:
                         seen_plural.add(pc)
                         acc.c["nontrivial"] += 1     # a new (locale, unit, CLDR plural class) combination
-                    check_unit_count(acc, pendulum, loc, unit, kk)
         acc.sample({"locale": shard["locales"][0], "units": list(UNITS), "counts": "0..1000", "flags": ["now", "absolute", "past/future"]})
     elif k == "words":
         keys = ("years", "months", "weeks", "days", "hours", "minutes", "seconds", "microseconds")
@@ -465,7 +467,9 @@ def run_shard(shard):
             for ia in shard["left"]:
                 for ib in pts:
                     acc.c["states"] += 1
-                    check_pair(acc, pendulum, loc, ia, ib, use_global=((ia + ib) // US % 3 == 0))
+                    ug = ((ia + ib) // US % 3 == 0)
+                    with worker.guarded(acc, "diff_for_humans", {"kind": "pair", "loc": loc, "ia": ia, "ib": ib, "global": ug}):
+                        check_pair(acc, pendulum, loc, ia, ib, use_global=ug)
         acc.sample({"pair": [obs.iso(shard["left"][0]), obs.iso(pts[3])], "locales": shard["locales"]})
     return acc.result()
 
